@@ -12,7 +12,7 @@ PROFILES = ("dev",)
 MAX_NOT_EXECUTED = 0
 _PINS = json.load(open(os.path.join(os.path.dirname(os.path.abspath(__file__)), "pins", "C03.json")))
 THEOREMS = [(n, _PINS[n]) for n in ("cache_transparent", "cache_hit_same_class", "cache_transparent_from_empty",
-                                    "override_poisons_refuted", "stream_vary_refuted")]
+                                    "override_poisons_refuted", "stream_vary_refuted", "qm_variant_refuted")]
 RULE = ("histories of requests/clears/waits against kvarn::handle_cache in process (harness/src/c04x.rs): (a) host with response cache vs. the Coq cache "
         "model Model/CacheX.v (component pipex.run; correspondence: status, vary / x-h / last-modified presence, decoded body, identity body, stream, "
         "handler invocation log per request), (b) host without response cache vs. the model run with cache off, (c) oracle real-vs-model: every reply "
@@ -28,9 +28,9 @@ RULE = ("histories of requests/clears/waits against kvarn::handle_cache in proce
         "distinct_nontrivial = distinct (history, model outcome) pairs containing at least one cache hit")
 ASSUMPTIONS = [
     "handlers honour their cache contract (theorem hypotheses: response is a function of method class, path of the URI that selects the handler "
-    "(the internal route when a Prime overrode the URI), (query if QueryMatters), vary tuple; query-matters-ness is uniform per path — an extra "
-    "hypothesis beyond the property's wording, needed because the Path key is looked up only after the PathQuery key; error responses are not "
-    "cacheable); fixture handlers satisfy it by construction",
+    "(the internal route when a Prime overrode the URI), (query if QueryMatters), vary tuple; error responses are not cacheable); fixture handlers "
+    "satisfy it by construction. The earlier extra hypothesis 'query-matters-ness is uniform per path' is gone: it was needed only because of the "
+    "defect witnessed by qm_variant_refuted, now repaired",
     "If-Modified-Since excluded here (C04 covers it): a cache-less server never answers 304",
     "moka is modelled as a finite map with read-your-writes; capacity (1024 entries) is never reached in a run",
     "sequential histories (one request at a time); the race between expiry and handle_vary_missing's second lookup is not modelled (C05)",
@@ -48,7 +48,7 @@ LEVEL_TEXT = ("Coq theorem cache_transparent over the full cache model (streams,
               "invariant on the cache (each stored variant equals recomputation for every request that can select it); plus cache_hit_same_class (an "
               "entry is only served to a request of the same path / query / method class / variant). Two defects of the code before its repair are "
               "proved as witnesses on the faithful old model (override_poisons_refuted: an internal route's answer stored under the page's key; "
-              "stream_vary_refuted). Tied to the repo worktree by a differential run of the real kvarn::handle_cache against the extracted model on "
+              "qm_variant_refuted: a QueryMatters variant joined a path-keyed entry and was served for every query; stream_vary_refuted). Tied to the repo worktree by a differential run of the real kvarn::handle_cache against the extracted model on "
               "generated histories, for hosts with and without the response cache, and by the real-vs-real comparison of the two hosts.")
 LEVEL_NOTE = ("Trusted: Coq kernel; extraction (sample re-checked in-kernel); hand transcription of handle_cache into Model/CacheX.v validated by the "
               "differential run; moka as a finite map; sequential histories. No axioms.")
@@ -77,10 +77,13 @@ def handlers(rng, prefs):
 def vary_pages(rng, timed):
     """/v: switch handler selected by x-v (vary rule x-v, lower-casing = identity on the generated values): its variants differ in status,
     preference, cache-control, stream; /w: echo of the transformed tuple, QueryMatters or Full. All pure functions of the request."""
-    qm = rng.random() < 0.3
+    uniform = rng.random() < 0.5
+    qm0 = rng.random() < 0.3
     behs = []
     for v in VVALS:
         st = rng.choice([200, 200, 200, 404, 400, 500, 301, 101])
+        # the variants of one page may differ in query-matters-ness (QueryMatters variants echo path?query, the others are static)
+        qm = qm0 if uniform else rng.random() < 0.4
         sp = 1 if qm else rng.choice([0, 2, 2, 2, 3])
         hdr = rng.choice([[], [], [(b"cache-control", b"max-age=2")] if timed else [(b"cache-control", b"max-age=1000")], [(b"kvarn-cache-control", b"none")],
                           [(b"cache-control", b"no-store")]])
@@ -88,7 +91,7 @@ def vary_pages(rng, timed):
         h = pipe.H(b"/v", kind=1 if qm else 0, status=st, body=b"V" + v + b":", headers=hdr + [(b"x-h", b"v" + v)], spref=sp, cpref=0, compress=rng.random() < 0.5)
         behs.append((v, h, 0, stream))
     xhs = [pipe.XH(b"/v", b"x-v", behs)]
-    tup = [(b"x-w", rng.choice([0, 1, 2, 3]), b"dw")]
+    tup = [(b"x-w", rng.choice([0, 1, 2, 3]), b"dw")] + ([(b"x-v", rng.choice([0, 1]), b"dv")] if rng.random() < 0.5 else [])
     hs = [pipe.H(b"/w", kind=3, body=b"W", spref=rng.choice([1, 2]), tuple_=tup, cpref=0)]
     rules = [pipe.vary_rule(b"/v", [(b"x-v", 0, b"a")]), pipe.vary_rule(b"/w", tup)]
     if rng.random() < 0.3:
@@ -189,6 +192,12 @@ def generate(rng, tier):
         xh = pipe.XH(b"/v", b"x-v", [(b"a", A, 0, 0), (b"b", pipe.H(b"/v", kind=0, body=b"b", spref=2, cpref=0), 0, st)])
         cases += mk_cases(rng, [], [pipe.req(b"/v", headers=[(b"x-v", b"a")]), pipe.req(b"/v", headers=[(b"x-v", b"b")]), pipe.req(b"/v", headers=[(b"x-v", b"b")])],
                           False, "corpus/stream-vary", xhs=[xh], vary=[pipe.vary_rule(b"/v", [(b"x-v", 0, b"a")])])
+    Aq = pipe.H(b"/v", kind=0, body=b"static-a", spref=2, cpref=0)
+    Bq = pipe.H(b"/v", kind=1, body=b"b:", spref=1, cpref=0)
+    xh = pipe.XH(b"/v", b"x-v", [(b"a", Aq, 0, 0), (b"b", Bq, 0, 0)])
+    Ra, Rb = [(b"x-v", b"a")], [(b"x-v", b"b")]
+    cases += mk_cases(rng, [], [pipe.req(b"/v?x=1", headers=Ra), pipe.req(b"/v?x=1", headers=Rb), pipe.req(b"/v?x=2", headers=Rb), pipe.req(b"/v?x=2", headers=Ra),
+                                pipe.req(b"/v?x=1", headers=Rb)], False, "corpus/qm-variant", xhs=[xh], vary=[pipe.vary_rule(b"/v", [(b"x-v", 0, b"a")])])
     nhist = 230 if tier == "quick" else 5000
     for i in range(nhist):
         prefs = [rng.choice([0, 1, 2]) for _ in range(3)]
